@@ -10,7 +10,7 @@
    coordinates), as the executable test [closedb] certifies it on indices:       *)
 From Coq Require Import Reals QArith Qreals List Lia.
 Require Import Cox.Num.Ops Cox.Num.Transfer Cox.Geo.Vec Cox.Geo.Sums Cox.Model.Mesh Cox.Model.Entry
-  Cox.Thm.MeshThm Cox.Thm.ClosedThm Cox.Thm.MeshTransfer.
+  Cox.Thm.MeshThm Cox.Thm.ClosedThm Cox.Thm.MeshTransfer Cox.Thm.TetraMoments.
 Import ListNotations.
 Local Open Scope R_scope.
 
@@ -88,6 +88,19 @@ Theorem C01_closedness_test_sound :
   forall (V : list (vec3 R)) tr, closedb tr = true -> closed (resolve Rops V tr).
 Proof. exact closedb_closed. Qed.
 Print Assumptions C01_closedness_test_sound.
+
+(* LEVEL 0: the tetrahedron moments the specification is built from ARE integrals.  For every (signed) tetrahedron
+   (0, a, b, c), parametrised X = u a + v b + w c over the standard simplex with Jacobian det(a,b,c):
+     m0 = int 1,   m1 i = int x_i,   m2 i j = int x_i x_j      (Coquelicot iterated RInt).
+   cone0/cone1/cone2 are their sums over the boundary triangles; that the signed sum over a closed outward chain is the
+   integral over the enclosed solid (tiling by cones from the origin) is the modelled step. *)
+Theorem C01_tetrahedron_moments_are_integrals :
+  forall (t : @tri R) (i j : nat),
+    tet_int (fun _ => 1) t = m0 Rops t
+    /\ tet_int (fun X => vcomp i X) t = m1 Rops i t
+    /\ tet_int (fun X => vcomp i X * vcomp j X) t = m2 Rops i j t.
+Proof. intros t i j. repeat split; [apply m0_is_integral | apply m1_is_integral | apply m2_is_integral]. Qed.
+Print Assumptions C01_tetrahedron_moments_are_integrals.
 
 (* non-vacuity: a concrete closed chain (the unit tetrahedron, outward oriented) meets
    the hypotheses, has volume 1/6 and centroid x = 1/4 *)
